@@ -137,7 +137,20 @@ class Program:
             if not os.path.exists(path):
                 raise FactsError("fact file %s missing (driver did not run)" % path)
             with open(path) as f:
-                self.d = json.load(f)
+                text = f.read()
+            self.d = json.loads(text)
+            # a private NESTED module (`mod protected;` inside src/header/, items re-exported by the parent) is an implementation
+            # detail of its parent: its items are analysed under the parent's path, which is what the spec tables and the
+            # public API name.  Flattening is skipped for a module whose items would collide with the parent's.
+            self.flattened_modules = []
+            for m in sorted((m["path"] for m in self.d.get("mods", []) if not m["pub"] and m["path"].count("::") >= 1),
+                            key=lambda s: -s.count("::")):
+                parent = m.rsplit("::", 1)[0]
+                flat = text.replace(m + "::", parent + "::")
+                d2 = json.loads(flat)
+                if all(len(d2[k]) == len(self.d[k]) for k in ("fns", "adts", "traits", "instances")):
+                    text, self.d = flat, d2
+                    self.flattened_modules.append(m)
         self.meta = self.d["meta"]
         if expect_nonce is not None and self.meta.get("nonce") != expect_nonce:
             raise FactsError("stale fact file: nonce %r != expected %r" % (self.meta.get("nonce"), expect_nonce))
